@@ -1,0 +1,22 @@
+//go:build !verif
+
+package storage
+
+// Verification hooks, disabled: every hook is an empty function, so the
+// calls inserted in page.go, wal.go and lru.go compile to nothing.
+
+func verifNodeMark(n *btreeNode, dirty bool)                             {}
+func verifStoreOpened(fs *fileStore, path string, autoFlush bool)        {}
+func verifTicker(fs *fileStore)                                          {}
+func verifFlusher(fs *fileStore, phase int)                              {}
+func verifLock(fs *fileStore, op int)                                    {}
+func verifClose(fs *fileStore)                                           {}
+func verifAccess(fs *fileStore, kind int, offset uint64)                 {}
+func verifPageWrite(fs *fileStore, n *btreeNode, b []byte)               {}
+func verifHeaderWrite(fs *fileStore, b []byte)                           {}
+func verifFlushLoopDone(fs *fileStore)                                   {}
+func verifPageRead(fs *fileStore, offset uint64, b []byte, n *btreeNode) {}
+func verifWalOpened(file any, db string)                                 {}
+func verifWalIO(file any, kind int, b []byte)                            {}
+func verifReplay(fs *fileStore, e *WALEntry, redo bool)                  {}
+func verifLRU(l *LRUCache, kind int, key any, n *btreeNode)              {}
